@@ -19,6 +19,8 @@ import vxlib as V
 C13 = os.path.join(V.VERIF, "c13")
 
 def sh(cmd, **kw):
+    if kw.get("cwd") and "env" not in kw:
+        kw["env"] = dict(os.environ, TMPDIR=kw["cwd"])      # goto-cc / cbmc temporaries live (and die) with the work directory
     return subprocess.run(cmd, stdout=subprocess.PIPE, stderr=subprocess.STDOUT, text=True, **kw)
 
 def extract(workdir):
@@ -111,7 +113,7 @@ def cbmc_run(workdir, src, defs, tag, unwind, timeout, extra=()):
     cmd = "ulimit -v %d; exec cbmc %s --unwind %d --unwinding-assertions --no-standard-checks --bounds-check --pointer-check --slice-formula --trace %s" % (24 * 1024 * 1024, gb, unwind, " ".join(extra))
     try:
         with open(log, "w") as lf:
-            subprocess.run(["bash", "-c", cmd], stdout=lf, stderr=subprocess.STDOUT, timeout=timeout, cwd=workdir)
+            subprocess.run(["bash", "-c", cmd], stdout=lf, stderr=subprocess.STDOUT, timeout=timeout, cwd=workdir, env=dict(os.environ, TMPDIR=workdir))
     except subprocess.TimeoutExpired:
         sh(["killall", "-q", "cbmc"])
         return dict(verdict="inconclusive", note="timeout %ds" % timeout, solver_s=time.time() - t0, props={}, traces={})
@@ -242,7 +244,7 @@ def cbmc_run_gb(workdir, gb, tag, unwind, timeout, extra=()):
     cmd = "ulimit -v %d; exec cbmc %s --unwind %d --unwinding-assertions --no-standard-checks --bounds-check --pointer-check --slice-formula --no-malloc-may-fail %s" % (24 * 1024 * 1024, gb, unwind, " ".join(extra))
     try:
         with open(log, "w") as lf:
-            subprocess.run(["bash", "-c", cmd], stdout=lf, stderr=subprocess.STDOUT, timeout=timeout, cwd=workdir)
+            subprocess.run(["bash", "-c", cmd], stdout=lf, stderr=subprocess.STDOUT, timeout=timeout, cwd=workdir, env=dict(os.environ, TMPDIR=workdir))
     except subprocess.TimeoutExpired:
         return dict(verdict="inconclusive", note="timeout", solver_s=time.time() - t0, props={})
     text = open(log, errors="replace").read()
